@@ -78,6 +78,16 @@ def part_a(ctx, pydsdl, u, objs, small, seed, case):
         for bi, base in enumerate(bases):
             base_tree = ("leaf", tuple(base))
             bobj = B(set(base)) if (bi or rng.random() < 0.5) else None
+            if rng.random() < 0.4 and len(T.fields) >= 2:
+                # a traversal that is abandoned early (a lookup of one field by next(), a break) - on an object that may never
+                # have been traversed before - leaves nothing behind that a later traversal could pick up
+                ctx.mon("abandoned-traversal")
+                it = T.iterate_fields_with_offsets(B(set(gen_base(rng)))) if rng.random() < 0.5 else T.iterate_fields_with_offsets()
+                for _ in range(rng.randrange(1, len(T.fields))):
+                    f_, o_ = next(it)
+                    if rng.random() < 0.5:
+                        _ = (o_.min, o_.max)
+                del it
             pairs = list(T.iterate_fields_with_offsets(bobj)) if bobj is not None else list(T.iterate_fields_with_offsets())
             ctx.mon("fields-in-order")
             fields = T.fields
